@@ -624,6 +624,10 @@ func (m *DenseReal64Matrix) Import(filename string) error {
       continue
     }
     fields := strings.Fields(l)
+    if len(fields) == 0 {
+      // line consists of white space only
+      continue
+    }
     if cols == 0 {
       cols = len(fields)
     }
@@ -664,6 +668,11 @@ func (obj *DenseReal64Matrix) UnmarshalJSON(data []byte) error {
   }
   if r.Rows < 0 || r.Cols < 0 || len(r.Values) != r.Rows*r.Cols {
     return fmt.Errorf("invalid dense matrix: %d values for dimension %dx%d", len(r.Values), r.Rows, r.Cols)
+  }
+  for i := 0; i < len(r.Values); i++ {
+    if r.Values[i] == nil {
+      return fmt.Errorf("invalid dense matrix: element %d is null", i)
+    }
   }
   obj.values = nilDenseReal64Vector(len(r.Values))
   for i := 0; i < len(r.Values); i++ {
